@@ -1039,7 +1039,10 @@ def generate_method_ctl(method_cls):
                        ("recalcAllCharacteristics", "RecalcAllCharacteristics"), ("calculateFunctionals", "CalculateFunctionals"),
                        ("updateOptimum", "UpdateOptimum"), ("renewSearchData", "RenewSearchData"),
                        ("finalizeIteration", "FinalizeIteration"), ("checkStopCondition", "CheckStopCondition")):
-        fa = func_ast(getattr(method_cls, attr))
+        fa = _inline_private_helpers(method_cls, func_ast(getattr(method_cls, attr)),
+                                     {"FirstIteration", "CalculateIterationPoint", "RecalcAllCharacteristics", "CalculateFunctionals", "UpdateOptimum",
+                                      "RenewSearchData", "FinalizeIteration", "CheckStopCondition", "CalculateM", "CalculateGlobalR",
+                                      "CalculateNextPointCoordinate", "CalculateDelta"})
         params = [a.arg for a in fa.args.args]
         out.append(f"/-- parameters of `Method.{attr}` -/\ndef {name}Params : List String := "
                    + "[" + ", ".join(_lean_str(x) for x in params) + "]\n")
@@ -1066,6 +1069,9 @@ def generate_search_data_ctl(sd_mod):
                 continue
             if not isinstance(fa, ast.FunctionDef):
                 continue
+            if attr.startswith("_") and not (attr.startswith("__") and attr.endswith("__")) and not attr.startswith("_" + cname + "__"):
+                continue        # a private helper: inlined where it is called
+            fa = _inline_private_helpers(cls, fa, {a_ for a_ in cls.__dict__ if not a_.startswith("_") or a_.startswith("__")})
             nm = cname[0].lower() + cname[1:] + "_" + attr.strip("_")
             names.append(nm)
             params = [a.arg for a in fa.args.args]
@@ -1101,7 +1107,9 @@ def generate_evolvent_ctl(cls):
            "(`Gen.ProcSrc.Stmt`): what is stored, what is called in which order, what is returned.\n-/\nnamespace Gen.EvolventCtl\nopen Gen.ProcSrc\n"]
     for name, attr in (("init", "__init__"), ("setBounds", "SetBounds"), ("getImage", "GetImage"), ("getInverseImage", "GetInverseImage"),
                        ("getPreimages", "GetPreimages"), ("transformP2D", "_Evolvent__TransformP2D"), ("transformD2P", "_Evolvent__TransformD2P")):
-        fa = func_ast(cls.__dict__[attr])
+        fa = _inline_private_helpers(cls, func_ast(cls.__dict__[attr]),
+                                     {"__init__", "SetBounds", "GetImage", "GetInverseImage", "GetPreimages", "__TransformP2D", "__TransformD2P",
+                                      "__GetYonX", "__GetXonY", "__CalculateNode", "__CalculateNumbr"})
         params = [a.arg for a in fa.args.args]
         out.append(f"/-- parameters of `Evolvent.{attr.replace('_Evolvent', '')}` -/\ndef {name}Params : List String := "
                    + "[" + ", ".join(_lean_str(x) for x in params) + "]\n")
@@ -1202,11 +1210,108 @@ def _stmt_to_lean(s_, ind):
     return f".other {_lean_str(ast.unparse(s_)[:200])}"
 
 
+
+def _inline_private_helpers(cls, fa, exported, depth=0):
+    """AST-level normal form for the statement-tree generators: a statement `self._helper(args)`, `t = self._helper(args)` or
+    `return self._helper(args)` whose callee is a PRIVATE method of the same class (single leading underscore, or a name-mangled
+    `__name`) that is not itself one of the exported procedures is replaced by the helper's own statements (parameters substituted,
+    the helper's single trailing `return e` turned into the assignment / return it feeds).  A maintainer's "extract method" then yields
+    the same tree as before.  Anything else (helper used inside an expression, several returns, rebinding a parameter) is left alone."""
+    if depth > 4:
+        return fa
+
+    def lookup(name):
+        fn = None
+        for k_ in cls.__mro__:          # a helper may live in a base class
+            fn = k_.__dict__.get(name)
+            if fn is None and name.startswith("__") and not name.endswith("__"):
+                fn = k_.__dict__.get("_" + k_.__name__ + name)
+            if fn is not None:
+                break
+        if isinstance(fn, staticmethod):
+            fn = fn.__func__
+        return fn if callable(fn) else None
+
+    def private(name):
+        return name.startswith("_") and not (name.startswith("__") and name.endswith("__")) and name not in exported \
+            and ("_" + cls.__name__ + name) not in exported
+
+    def expand(call, kind, target):
+        f = call.func
+        if not (isinstance(f, ast.Attribute) and isinstance(f.value, ast.Name) and f.value.id == "self" and private(f.attr)) or call.keywords:
+            return None
+        fn = lookup(f.attr)
+        if fn is None:
+            return None
+        try:
+            ha = func_ast(fn)
+        except (OSError, TypeError):
+            return None
+        ha = _inline_private_helpers(cls, ha, exported, depth + 1)
+        params = [a.arg for a in ha.args.args]
+        if params and params[0] == "self":
+            params = params[1:]
+        if len(params) != len(call.args) or not all(isinstance(a, (ast.Name, ast.Attribute, ast.Constant)) for a in call.args):
+            return None
+        sub = dict(zip(params, call.args))
+        body = _nodoc(ha.body)
+        assigned = {t_.id for b in body for n_ in ast.walk(b) if isinstance(n_, (ast.Assign, ast.AugAssign, ast.AnnAssign))
+                    for t_ in ([n_.target] if not isinstance(n_, ast.Assign) else n_.targets) if isinstance(t_, ast.Name)}
+        if assigned & set(params):
+            return None
+
+        class S(ast.NodeTransformer):
+            def visit_Name(self, node):
+                if node.id in sub and isinstance(node.ctx, ast.Load):
+                    return copy.deepcopy(sub[node.id])
+                return node
+        body = [S().visit(copy.deepcopy(b)) for b in body]
+        rets = [n_ for b in body for n_ in ast.walk(b) if isinstance(n_, ast.Return)]
+        last_ret = body[-1] if body and isinstance(body[-1], ast.Return) else None
+        if len(rets) > (1 if last_ret is not None else 0):
+            return None
+        if kind == "stmt":
+            if last_ret is not None and last_ret.value is not None and ast.unparse(last_ret.value) != "None":
+                return None
+            return body[:-1] if last_ret is not None else body
+        if last_ret is None or last_ret.value is None:
+            return None
+        if kind == "ret":
+            return body[:-1] + [ast.Return(value=last_ret.value)]
+        return body[:-1] + [ast.Assign(targets=[target], value=last_ret.value)]
+
+    def walk(stmts):
+        out = []
+        for s_ in stmts:
+            rep = None
+            if isinstance(s_, ast.Expr) and isinstance(s_.value, ast.Call):
+                rep = expand(s_.value, "stmt", None)
+            elif isinstance(s_, ast.Return) and isinstance(s_.value, ast.Call):
+                rep = expand(s_.value, "ret", None)
+            elif isinstance(s_, ast.Assign) and len(s_.targets) == 1 and isinstance(s_.value, ast.Call):
+                rep = expand(s_.value, "assign", s_.targets[0])
+            if rep is not None:
+                out += [ast.fix_missing_locations(x) for x in rep]
+                continue
+            for fld in ("body", "orelse", "finalbody"):
+                if hasattr(s_, fld) and isinstance(getattr(s_, fld), list):
+                    setattr(s_, fld, walk(getattr(s_, fld)))
+            if isinstance(s_, ast.Try):
+                for h in s_.handlers:
+                    h.body = walk(h.body)
+            out.append(s_)
+        return out
+    fa = copy.deepcopy(fa)
+    fa.body = walk(fa.body)
+    return fa
+
+
 def generate_process(proc_cls):
     out = []
     for name, attr in (("doGlobalIteration", "DoGlobalIteration"), ("solve", "Solve"), ("doLocalRefinement", "DoLocalRefinement"),
                        ("getResults", "GetResults"), ("problemCalculate", "problemCalculate")):
-        fa = func_ast(getattr(proc_cls, attr))
+        fa = _inline_private_helpers(proc_cls, func_ast(getattr(proc_cls, attr)),
+                                     {"DoGlobalIteration", "Solve", "DoLocalRefinement", "GetResults", "problemCalculate"})
         params = [a.arg for a in fa.args.args]
         defaults = [ast.unparse(d) for d in fa.args.defaults]
         out.append(f"/-- parameters of `Process.{attr}` -/\ndef {name}Params : List String := "
